@@ -216,11 +216,18 @@ def _match_to_if(st: ast.Match) -> ast.stmt | None:
     return node[0]
 
 
-def simplify_ifs(stmts: list) -> list:
+def matches_to_ifs(stmts: list) -> list:
     out = []
     for st in stmts:
         if isinstance(st, ast.Match):
             st = _match_to_if(st) or st
+        out.append(_map_bodies(st, lambda b, _p, _f: matches_to_ifs(b)))
+    return out
+
+
+def simplify_ifs(stmts: list) -> list:
+    out = []
+    for st in stmts:
         st = _map_bodies(st, lambda b, _p, _f: simplify_ifs(b))
         # if c: x = a else: x = b   ==   x = a if c else b   (kept as ONE assignment of x)
         if isinstance(st, ast.If) and len(st.body) == 1 and len(st.orelse) == 1:
@@ -534,7 +541,7 @@ class Inliner:
             mapping["self"] = "self"
         ren = _Rename(mapping)
         body = [ren.visit(s) for s in body]
-        body = elseify(body)
+        body = elseify(matches_to_ifs(body))
         if _returns_outside_tail(body):
             return None
         body = _replace_tail_returns(body, target)
@@ -585,7 +592,7 @@ def normalize(fn: ast.FunctionDef, module: ast.Module, cls: ast.ClassDef | None 
     for st in fn.body:
         if isinstance(st, ast.FunctionDef) and st.name not in inl.funcs:
             inl.funcs[st.name] = st
-    body = inl.run(list(fn.body), _imports_of(fn))
+    body = inl.run(matches_to_ifs(list(fn.body)), _imports_of(fn))
     body = elseify(body)
     body = drop_tail(body, ast.Return)
     body = _drop_loop_tails(body)
